@@ -32,7 +32,7 @@ type c07iPlan struct {
 	NLines     int    `json:"nlines"`
 	WithNth    string `json:"with_nth"` // what is displayed and searched; what is printed stays the record
 	Ansi       int    `json:"ansi"`     // every Ansi-th record carries SGR sequences and --ansi is given
-	End        string `json:"end"` // enter | esc | alt-e (expect key) | f2 (expect key) | alt-p (print-query) | alt-o (accept-or-print-query) | alt-n (accept-non-empty)
+	End        string `json:"end"`      // enter | esc | alt-e (expect key) | f2 (expect key) | alt-p (print-query) | alt-o (accept-or-print-query) | alt-n (accept-non-empty)
 }
 
 func fieldLines(seed uint64, n int, delim string) []string {
@@ -269,7 +269,7 @@ func runC07i(c *runCtx) {
 			if m.list == nil {
 				items := display(r)
 				mc := sp.Match
-							m.list = indicesOf(freshFilter(items, plan.Query, mc))
+				m.list = indicesOf(freshFilter(items, plan.Query, mc))
 				if m.list == nil {
 					m.list = []int32{}
 				}
